@@ -82,3 +82,11 @@ Theorem C09_source_reset_reaches_detector : forall (W : Type) (ext : string -> l
     | Panicked w1 => MotionProcessor_Reset ext mp w = Panicked w1
     end.
 Proof. exact Reset_resets_detector. Qed.
+
+From TR Require Import proofs.Bridges.
+
+(* ---- the detector is fed by motion/motionprocessor.go as it is now (proofs/TieProc.v, restated in proofs/Bridges.v):
+   on every history the translated processor makes exactly the model's calls - every accepted frame reaches Detect exactly
+   once, inside or outside the recording window, recording or not; a bad frame never does *)
+Theorem C09_source_processor_feeds_detector : BProc.processor_source_tie_stmt.
+Proof. exact BProc.processor_source_tie. Qed.
